@@ -16,14 +16,18 @@ RULE = ('(a) handler level: documents from a grammar of Junos-style replies (pla
         '(b) whole path: streams of 1-2 pipelined replies (with/without filter, plain/nc:, white space between) under every '
         'single cut; thorough adds all double cuts within windows round start tags and delimiters, all double cuts of two short '
         'streams, byte-wise feeding and random multi-cuts; replies optionally begin with an XML declaration; (d) streams with one reply that is not '
-        'well-formed (expat rejects / the DOM parser cannot dispatch and stays). Every cut run is also replayed on the extracted driver model '
+        'well-formed (expat rejects / the DOM parser cannot dispatch and stays); (e) the forms in which a caller hands over the filter '
+        '(XML text, bytes, lxml element -- falsy when it has no children --, sub-element of a larger tree, one element object '
+        'shared by two requests) and in which a request has none (filter_xml=None, argument omitted, Command / GetConfiguration '
+        'objects without the attribute) are drawn per request in every family, every handler-level case is repeated in all forms, and '
+        'for streams with single-leaf / deeper filters, first-child / wrapper replies all combinations of forms are run. Every cut run is also replayed on the extracted driver model '
         '(coq/Model/JunosParse.v) and compared after every read. A case is distinct by (document, filter, request kind) resp. '
         '(stream, filters, cuts); non-trivial = the request has a filter and the document has at least one kept and one '
         'dropped element, or the stream is cut.')
 ASSUMES = ['expat delivers the SAX events of the byte stream fed so far, independent of how it was fed, with raw qualified names (pyexpat 2.5.0: no reparse deferral)',
            'driver model: the octets the SAX handler writes never contain "]]>" (they are kept apart from the delimiter search); NETCONF 1.0 framing; the verdict of Session._dispatch_message on a DOM message (does parse_root find a root) and the per-octet events of expat are oracles supplied by the harness',
            'lxml Element.find(tag, namespaces) / getparent / builder.E behave as modelled (first child by Clark tag, SyntaxError on unknown prefix, ValueError on prefixed tag)',
-           'the filter is given as a string (a fresh tree per reply); an Element filter object is mutated by the wrapper step',
+           'the model takes the filter as a tree (ftree) whatever object the caller handed over; that an lxml element, a sub-element or a shared element behaves like the text is checked by the correspondence (family (e)), not proved; an Element filter object is re-parented by the wrapper step',
            'byte-level recovery (_delimiter_check, only reached for input that is not well-formed XML) is not modelled: the driver model ends in an explicit Stuck state there and the comparison stops at that read']
 TRUSTED = ['modelled, not verified: expat, lxml, difflib; DefaultXMLParser._parse10 (C01) is used as is for the hand-over',
            'the rendering of the handler output to bytes (render) is tied to the code by the correspondence only; the projection theorem speaks about output events']
@@ -88,8 +92,13 @@ def handler_case(rng, i):
     if fl == 'prefix' and not any(k == 'xmlns:nc' for k, _ in doc[2]):
         doc[2].append(('xmlns:nc', G.BASE_NS))
     f = G.gen_filter(rng, doc, r)
+    if rng.random() < 0.12: f = (f[0], [])           # single-leaf filter: the root alone
     kind = rng.choice(['filter'] * 16 + ['nofilter', 'nofilter', 'bare', 'unknown', 'nolistener', 'nomsgid'])
-    return dict(kind='handler', flavour=fl, doc=doc, filter=f, req=kind, mid=mid)
+    # how the caller hands the filter over (text, bytes, lxml element -- falsy when childless --, element inside a larger tree)
+    form = rng.choice(HANDLER_FORMS)
+    return dict(kind='handler', flavour=fl, doc=doc, filter=f, req=kind, mid=mid, form=form)
+
+HANDLER_FORMS = ('text', 'bytes', 'element', 'subelement')
 
 def run_handler_case(case, chunk=None):
     """-> (events, outcome, buffer) of the real handler."""
@@ -103,7 +112,7 @@ def run_handler_case(case, chunk=None):
     if case['req'] == 'nofilter': table = {case['mid']: None}
     elif case['req'] == 'bare': table = {case['mid']: 'bare'}
     elif case['req'] == 'unknown': table = {'other-id': fstr}
-    ev, out, buf = H.handler_run(xml, table, listener=case['req'] != 'nolistener', chunk=chunk)
+    ev, out, buf = H.handler_run(xml, table, listener=case['req'] != 'nolistener', chunk=chunk, form=case.get('form', 'text'))
     return xml, fstr, table, ev, out, buf
 
 def _tup(t):
@@ -159,6 +168,8 @@ def check_handler_cases(ctx, cases):
         key = [G.ser(doc), fstr, case['req']]
         ctx.count(case, nontrivial=nontrivial_handler(case), key=key)
         ctx.hist('handler_flavour', case['flavour']); ctx.hist('handler_request', case['req']); ctx.hist('handler_outcome', out)
+        if case['req'] == 'filter':
+            ctx.hist('handler_filter_form', '%s, %s' % (case.get('form', 'text'), 'single leaf' if not f[1] else 'with children'))
         R = G.reasons(doc, f)
         ctx.hist('handler_class', 'in proved class' if not R else '+'.join(sorted(R)))
         ctx.hist('handler_events', min(len(ev) // 10 * 10, 100))
@@ -179,6 +190,16 @@ def check_handler_cases(ctx, cases):
         bad = handler_oracle(case, xml, fstr, out, buf)
         if bad:
             ctx.fail(case, bad[0], sig=G.sig_of(doc, f) if case['req'] == 'filter' else None, expected=bad[1], actual=bad[2])
+        elif case['req'] == 'filter':
+            # ... and in every other form the same filter can be handed over in (same oracle: the projection)
+            for form in HANDLER_FORMS:
+                if form == case.get('form', 'text'): continue
+                c2 = dict(case, form=form)
+                _, _, _, _, out2, buf2 = run_handler_case(c2)
+                bad = handler_oracle(c2, xml, fstr, out2, buf2)
+                ctx.evaluations += 1
+                if bad:
+                    ctx.fail(c2, bad[0] + ' [filter handed over as %s]' % form, sig=G.sig_of(doc, f), expected=bad[1], actual=bad[2])
 
 def check_spec_cases(ctx, cases):
     """Coq Spec.Projection.project vs its Python reading vs the xml.etree oracle, on in-class documents."""
@@ -235,17 +256,21 @@ def _rename_below(rng, doc, r, new):
         return ('E', t[1], t[2], ks)
     return rebuild(doc, target)
 
-def gen_stream(rng, n_replies=None, linked=False):
+def gen_stream(rng, n_replies=None, linked=False, leaf=None, p_filter=None, twin=False):
     """-> dict(kind='path', docs=[doc...], filters=[filter or None...], gaps=[bytes between replies]).
     linked: a later reply contains, below its own top element, an element named like the first reply's top element
     (software-information alone, then inside multi-routing-engine-results): what one request leaves behind in the
-    parser must not show in the next."""
+    parser must not show in the next.
+    leaf: True = every filter is a single leaf (the filter root alone), False = every filter has children, None = as drawn; p_filter: probability that
+    a request has a filter; twin: the second reply is the first again (other message-id) and the request has the same
+    filter (so that one filter OBJECT can serve both requests, form 'shared')."""
     H, G = _H()
     n = n_replies or (rng.choice([2, 2, 3]) if linked else rng.choice([1, 1, 2]))
     docs, fls = [], []
     ids = H.ids_for(n)
     r0 = None
     for i in range(n):
+        one_leaf = leaf if leaf is not None else rng.random() < 0.12
         for _try in range(50):
             doc, r = G.gen_doc(rng, ids[i], rng.choice(['inclass', 'inclass', 'inclass', 'wrapper']))
             if linked and i > 0:
@@ -254,14 +279,30 @@ def gen_stream(rng, n_replies=None, linked=False):
                 if d2 is None: continue
                 doc = d2
             f = G.gen_filter(rng, doc, r)
+            if one_leaf: f = (f[0], [])              # single-leaf filter
+            if leaf is False and not f[1]: continue   # asked for a filter with children
             if G.reasons(doc, f) <= {'wrapper'} and not G.has_cr(doc) and len(G.ser(doc)) < 330: break
         docs.append(doc)
         if i == 0: r0 = r
-        fls.append(f if rng.random() < (0.9 if linked else 0.6) else None)
+        fls.append(f if rng.random() < (p_filter if p_filter is not None else 0.9 if linked else 0.6) else None)
+    if twin and n >= 2:
+        docs[1] = ('E', docs[0][1], [(k, ids[1] if k == 'message-id' else v) for k, v in docs[0][2]], docs[0][3])
+        fls[1] = fls[0]
     gaps = [rng.choice(['', '', '\n', '\n\n', ' ']) for _ in range(n)]
     # some servers start every message with an XML declaration (after the white space that follows the delimiter)
     decl = [rng.random() < 0.3 for _ in range(n)]
-    return dict(kind='path', docs=docs, filters=fls, gaps=gaps, decl=decl)
+    forms = [rng.choice(H.FILTER_FORMS if f is not None else H.NOFILTER_FORMS) for f in fls]
+    return dict(kind='path', docs=docs, filters=fls, gaps=gaps, decl=decl, forms=forms)
+
+def forms_of(case):
+    """how each request hands over its filter / comes to have none (cases recorded before round 4: text / None)"""
+    H, G = _H()
+    fm = case.get('forms') or [None] * len(case['filters'])
+    return [x or H.default_form(f) for x, f in zip(fm, case['filters'])]
+
+def off_forms(case):
+    """the same requests for the run with the mode off: the requests without filter are issued the same way"""
+    return [x if f is None else 'none' for x, f in zip(forms_of(case), case['filters'])]
 
 XML_DECL = b'<?xml version="1.0" encoding="UTF-8"?>'
 def _doc_bytes(case, i):
@@ -288,7 +329,7 @@ def path_expected(case):
     off, and for filtered requests the projection (canonical trees of raw and of the transformed reply)."""
     H, G = _H()
     stream = stream_bytes(case)
-    off = H.run_stream([stream], [None] * len(case['docs']), use_filter=False)
+    off = H.run_stream([stream], [None] * len(case['docs']), use_filter=False, forms=off_forms(case))
     exp = []
     for d, f, o in zip(case['docs'], case['filters'], off):
         if o[0] != 'reply':
@@ -329,7 +370,7 @@ def run_path(case, cuts):
         segs = [stream[i:i + 1] for i in range(len(stream))]
     else:
         segs = H.cuts_to_segments(stream, cuts)
-    return H.run_stream(segs, fstrs, use_filter=True)
+    return H.run_stream(segs, fstrs, use_filter=True, forms=forms_of(case))
 
 def run_path_obs(case, cuts):
     """run_path with the per-read observations of harness/saxseg.py"""
@@ -338,7 +379,7 @@ def run_path_obs(case, cuts):
     stream = stream_bytes(case)
     fstrs = [None if f is None else G.filter_str(_ftup(f)) for f in case['filters']]
     segs = [stream[i:i + 1] for i in range(len(stream))] if cuts == 'bytewise' else H.cuts_to_segments(stream, cuts)
-    return S.run_stream_obs(segs, fstrs, use_filter=True)
+    return S.run_stream_obs(segs, fstrs, use_filter=True, forms=forms_of(case))
 
 def check_driver_model(ctx, case, stream, runs):
     """JunosParse.run (extracted, instance JunosSax) vs the implementation, read by read, for the cut runs of one stream"""
@@ -385,9 +426,13 @@ def interesting_positions(case):
     return pos
 
 def check_path_case(ctx, case, cutsets):
+    H, G = _H()
     stream, exp = path_expected(case)
     ctx.hist('path_replies', len(case['docs'])); ctx.hist('path_filters', ''.join('F' if f is not None else '-' for f in case['filters']))
     ctx.hist('path_stream_len', len(stream) // 50 * 50)
+    for d, f, fm in zip(case['docs'], case['filters'], forms_of(case)):
+        ctx.hist('path_filter_form', fm if f is None else '%s, %s, %s' % (fm, 'single leaf' if not f[1] else 'with children',
+                 'wrapper' if 'wrapper' in G.reasons(_tup(d), _ftup(f)) else 'first child'), len(cutsets))
     n = 0
     runs = []
     for cuts in cutsets:
@@ -405,6 +450,17 @@ def check_path_case(ctx, case, cutsets):
     ctx.count(dict(stream=stream.hex(), filters=case['filters']), nontrivial=True)
     ctx.evaluations -= 1
     ctx.hist('path_runs', 'cut runs', n)
+
+def check_forms_case(ctx, case, rng):
+    """(e) one stream, every way of handing over its filters / of issuing its requests without filter: the oracle is the
+    same for all of them (projection resp. the reply with the mode off)."""
+    H, G = _H()
+    L = len(stream_bytes(case))
+    choices = [H.FILTER_FORMS if f is not None else H.NOFILTER_FORMS for f in case['filters']]
+    for combo in itertools.product(*choices):
+        cutsets = [[]] + [sorted(rng.sample(range(1, L), min(L - 1, n))) for n in (1, 3)]
+        check_path_case(ctx, dict(case, forms=list(combo)), cutsets)
+        ctx.hist('path_forms', 'combinations of forms')
 
 def check_malformed_case(ctx, case, cutsets):
     """A stream with one reply that is not well-formed.  Request without filter: the DOM parser cannot dispatch it and
@@ -476,11 +532,17 @@ def run(ctx):
         L = len(stream_bytes(case))
         check_path_case(ctx, case, [[]] + [sorted(rng.sample(range(1, L), min(L - 1, 3))) for _ in range(2)])
         ctx.hist('path_linked', 'histories')
+    # (e) filter forms x reply shapes: every way a caller can hand over the filter (or have none), on replies where the
+    # filter root is the first child / below a wrapper, filters with children / a single leaf, one object for two requests
+    for k in range(60 if thorough else 36):
+        case = gen_stream(rng, n_replies=(2 if k % 3 == 0 else 1), leaf=(k % 2 == 0), p_filter=(1.0 if k % 3 else 0.7), twin=(k % 6 == 0))
+        check_forms_case(ctx, case, rng)
     # (d) one reply of the stream is not well-formed
     for k in range(24 if thorough else 10):
         case = gen_stream(rng, n_replies=2 + k % 2)
         case['corrupt'] = k % len(case['docs'])
-        if k % 2 == 0: case['filters'][case['corrupt']] = None
+        if k % 2 == 0 and case['filters'][case['corrupt']] is not None:
+            case['filters'][case['corrupt']] = None; case['forms'][case['corrupt']] = rng.choice(_H()[0].NOFILTER_FORMS)
         if k % 4 == 0: case['corrupt_kind'] = 'nons'
         L = len(stream_bytes(case))
         check_malformed_case(ctx, case, [[]] + [[c] for c in range(1, L, 1 if thorough else 3)])
@@ -553,9 +615,10 @@ def replay(doc):
     r = eval_case(c)
     H, G = _H()
     if c.get('kind') == 'path':
-        print('stream   :', stream_bytes(c)); print('filters  :', [None if f is None else G.filter_str(_ftup(f)) for f in c['filters']]); print('cuts     :', c.get('cuts'))
+        print('stream   :', stream_bytes(c)); print('filters  :', [None if f is None else G.filter_str(_ftup(f)) for f in c['filters']])
+        print('handed over as / request without filter issued as (harness/saxpath.py FILTER_FORMS, NOFILTER_FORMS):', forms_of(c)); print('cuts     :', c.get('cuts'))
     else:
-        print('document :', G.ser(_tup(c['doc']))); print('filter   :', G.filter_str(_ftup(c['filter']))); print('request  :', c['req'])
+        print('document :', G.ser(_tup(c['doc']))); print('filter   :', G.filter_str(_ftup(c['filter'])), '(handed over as %s)' % c.get('form', 'text')); print('request  :', c['req'])
     if r:
         print('what     :', r['what']); print('expected :', r['expected']); print('actual   :', r['actual'])
     else:
